@@ -41,11 +41,11 @@ var swapMap = map[string][2]string{
 }
 
 type fileJob struct {
-	rel   string
-	fset  *token.FileSet
-	f     *ast.File
+	rel    string
+	fset   *token.FileSet
+	f      *ast.File
 	needRT bool
-	log   []string
+	log    []string
 }
 
 func die(format string, a ...any) {
@@ -449,6 +449,18 @@ func (j *fileJob) chans() int {
 				continue
 			}
 			switch s := st.(type) {
+			case *ast.RangeStmt:
+				// `for range ticker.C { body }` (a janitor loop): each iteration first parks until the (virtual) tick is
+				// due. Only the selector form X.C without iteration variables is rewritten (no type information here).
+				if sel, ok := s.X.(*ast.SelectorExpr); ok && sel.Sel.Name == "C" && s.Key == nil && s.Value == nil {
+					recv := &ast.ExprStmt{X: &ast.UnaryExpr{Op: token.ARROW, X: s.X}}
+					noAwait[recv] = true
+					body := append([]ast.Stmt{&ast.ExprStmt{X: rtCall("AwaitRecv", s.X)}, recv}, s.Body.List...)
+					out = append(out, &ast.ForStmt{Body: &ast.BlockStmt{List: body}})
+					j.needRT = true
+					n++
+					continue
+				}
 			case *ast.SendStmt:
 				out = append(out, &ast.ExprStmt{X: rtCall("AwaitSend", s.Chan)})
 				j.needRT = true
